@@ -62,6 +62,10 @@ func (g *scopeGen) exp(d int) string {
 	case 3:
 		return "(" + g.exp(d-1) + ")"
 	case 4:
+		if g.r.Chance(1, 3) {
+			// a computed key: its expression is read too
+			return "{ [" + g.exp(d-1) + "] = " + g.exp(d-1) + ", k = " + g.exp(d-1) + " }"
+		}
 		return "{ " + g.exp(d-1) + ", k = " + g.exp(d-1) + " }"
 	case 5:
 		return g.useName() + ".f"
@@ -111,7 +115,7 @@ func (g *scopeGen) funcBody(head string) {
 }
 
 func (g *scopeGen) stat() {
-	k := g.r.Intn(28)
+	k := g.r.Intn(29)
 	if g.depth >= 4 && k >= 12 && k <= 20 {
 		k = g.r.Intn(10)
 	}
@@ -210,6 +214,19 @@ func (g *scopeGen) stat() {
 		g.line(g.gpool[g.r.Intn(3)] + " = " + g.exp(1))
 	case 22:
 		g.line("print(" + g.useName() + ", " + g.useName() + ")")
+	case 28:
+		// more targets than expressions: the extra targets take the further results of the call
+		a, b := g.useName(), g.useName()
+		if a == "print" {
+			a = "G1"
+		}
+		if b == "print" || b == a {
+			b = "G2"
+		}
+		if a == b {
+			a = "G1"
+		}
+		g.line(a + ", " + b + " = gfun(" + g.exp(0) + ")")
 	case 26:
 		// closures in the limit and the step of a numeric for (several lines each)
 		n := g.name()
@@ -248,7 +265,12 @@ func (g *scopeGen) stat() {
 		if t == "print" {
 			t = "G1"
 		}
-		g.line(t + []string{".f", ".f.g", "[\"k\"]", "[1]"}[g.r.Intn(4)] + " = " + g.exp(1))
+		if g.r.Chance(1, 4) {
+			// a bare name between two string-key indexes on one line
+			g.line(t + "[\"k\"] = " + g.useName() + " + " + t + "[\"j\"]")
+		} else {
+			g.line(t + []string{".f", ".f.g", "[\"k\"]", "[1]"}[g.r.Intn(4)] + " = " + g.exp(1))
+		}
 	default:
 		g.line("local " + g.name() + ", " + g.name())
 	}
